@@ -70,6 +70,7 @@ def run_cron_tick(n):
             did = E2.deref(c.args[3])
             m = models_fvm.load_map(E2, E2.deref(fget(E2, stv, ST['states'], CID)), 'deal::DealState', 'amt')
             pres, val = models_fvm.map_lookup(E2, m, ('int', did.v), did)
+            env['last_loaded_id'] = did.v
             if not pres:
                 pen = z3.Int(nm + '.slashed')
                 E2.ctx.assume(pen >= 0)
@@ -87,6 +88,7 @@ def run_cron_tick(n):
             # contract of process_deal_update (decided in C07): slashed amount non-negative; a deal that continues is never slashed
             E2.ctx.assume(z3.And(sl >= 0, z3.Implies(z3.Not(rem), sl == 0)))
             slashes.append((sl, rem))
+            env['updated'] = env.get('updated', []) + [dict(did=env.get('last_loaded_id'), remove=rem)]
             return ok(StructV('tuple', {0: BigV(sl), 1: BigV(pay), 2: done, 3: rem}), c.dest_ty)
         E.cuts['State::get_active_deal_or_process_timeout'] = cut_load
         E.cuts['State::process_deal_update'] = cut_update
@@ -118,6 +120,22 @@ def props_cron_tick(E, res):
     P.append(tagged('C01,C07', 'every amount slashed in the tick (timed-out proposals, terminated deals) is burnt: nothing is stranded', sent == total))
     ST, DPF, DSF = F()
     P.append(tagged('C05', 'the tick records the epoch it processed', fget(E, rt.state, ST['last_cron'], 'i64').v == rt.epoch))
+    # the invariant the tick itself assumes (an unstamped deal still has its pending entry) is kept: a deal that continues is
+    # written back stamped with the epoch of this update
+    sm = heap_get(E, fget(E, rt.state, ST['states'], CID))
+    for u in env.get('updated', []):
+        if implied(ctx, u['remove']):
+            continue
+        lbl = 'a deal that continues after its cron update is written back stamped with the epoch of the update'
+        if not isinstance(sm, MapM) or u['did'] is None:
+            P.append(tagged('C05,C07', lbl, False))
+            continue
+        pres, val = final_lookup(E, sm, ('int', u['did']))
+        if pres is not True or val is None:
+            P.append(tagged('C05,C07', lbl, z3.BoolVal(False) if not is_sym(u['remove']) else u['remove']))
+        else:
+            stamp = fget(E, E.deref(val), DSF['last_updated_epoch'], 'i64').v
+            P.append(tagged('C05,C07', lbl, z3.Implies(z3.Not(u['remove']) if is_sym(u['remove']) else z3.BoolVal(not u['remove']), stamp == rt.epoch)))
     return P
 
 
